@@ -25,8 +25,20 @@ func specialsMod(m *big.Int) []*big.Int {
 }
 
 // raw Montgomery limbs of a field (mod m) value. canon=false allows non-canonical limb patterns (>= m).
+var carryPropCache = map[string][]limbs{}
+
 func (r *rng) rawMod(m *big.Int, allowNonCanon bool) limbs {
 	switch c := r.intn(100); {
+	case c < 4:
+		// operands constructed to push a carry through an all-ones limb of a Montgomery reduction round (carryprop.go)
+		k := m.String()
+		if _, ok := carryPropCache[k]; !ok {
+			carryPropCache[k] = carryPropLimbs(m)
+		}
+		if cp := carryPropCache[k]; len(cp) > 0 {
+			return cp[r.intn(len(cp))]
+		}
+		return bigToLimbs(new(big.Int).Mod(r.big256(), m))
 	case c < 45:
 		return bigToLimbs(new(big.Int).Mod(r.big256(), m))
 	case c < 70:
@@ -392,6 +404,9 @@ func genScalarAPI(e *emitter, r *rng, n int) {
 	}
 	// and as *stored* limbs: values whose Montgomery representation is 1, 2, a single high limb, all-ones in the low limb
 	for _, l := range []limbs{{1, 0, 0, 0}, {2, 0, 0, 0}, {0, 1, 0, 0}, {0, 0, 0, 1}, {^uint64(0), 0, 0, 0}, {0, 0, 0, 1 << 63}} {
+		edge = append(edge, showL(l))
+	}
+	for _, l := range carryPropLimbs(bigN) {
 		edge = append(edge, showL(l))
 	}
 	for _, a := range edge {
